@@ -10,10 +10,14 @@ import Mathlib.Data.List.Range
 namespace Ps.Spec
 
 /-- least prime ≥ n -/
-noncomputable def nextPrime (n : Nat) : Nat := Nat.find (Nat.exists_infinite_primes n)
+noncomputable def nextPrime (n : Nat) : Nat :=
+  @Nat.find _ (Classical.decPred _) (Nat.exists_infinite_primes n)
 
 /-- greatest prime ≤ n, or 0 when there is none (n < 2) -/
-noncomputable def prevPrime (n : Nat) : Nat := Nat.findGreatest Nat.Prime n
+noncomputable def prevPrime (n : Nat) : Nat := @Nat.findGreatest Nat.Prime (Classical.decPred _) n
+
+-- NB: both are defined with classical decidability on purpose, so that neither the kernel nor
+-- `decide` ever tries to *compute* them by brute-force primality testing of 64-bit numbers.
 
 /-- the primes of the half-open interval [a, p), ascending -/
 noncomputable def primesHO (a p : Nat) : List Nat :=
@@ -22,10 +26,12 @@ noncomputable def primesHO (a p : Nat) : List Nat :=
 /-- the primes of the closed interval [a, b], ascending -/
 noncomputable def primesIn (a b : Nat) : List Nat := primesHO a (b + 1)
 
-theorem le_nextPrime (n : Nat) : n ≤ nextPrime n := (Nat.find_spec (Nat.exists_infinite_primes n)).1
-theorem nextPrime_prime (n : Nat) : (nextPrime n).Prime := (Nat.find_spec (Nat.exists_infinite_primes n)).2
+theorem le_nextPrime (n : Nat) : n ≤ nextPrime n :=
+  (@Nat.find_spec _ (Classical.decPred _) (Nat.exists_infinite_primes n)).1
+theorem nextPrime_prime (n : Nat) : (nextPrime n).Prime :=
+  (@Nat.find_spec _ (Classical.decPred _) (Nat.exists_infinite_primes n)).2
 theorem nextPrime_min {n p : Nat} (h1 : n ≤ p) (h2 : p.Prime) : nextPrime n ≤ p :=
-  Nat.find_min' _ ⟨h1, h2⟩
+  @Nat.find_min' _ (Classical.decPred _) _ _ ⟨h1, h2⟩
 
 theorem nextPrime_eq_of {n p : Nat} (h1 : n ≤ p) (h2 : p.Prime)
     (h3 : ∀ q, n ≤ q → q < p → ¬ q.Prime) : nextPrime n = p := by
@@ -45,17 +51,25 @@ theorem nextPrime_eq_nextPrime {x y : Nat} (hxy : x ≤ y)
 theorem no_prime_lt_nextPrime {n q : Nat} (h1 : n ≤ q) (h2 : q < nextPrime n) : ¬ q.Prime := by
   intro hq; have := nextPrime_min h1 hq; omega
 
-theorem prevPrime_le (n : Nat) : prevPrime n ≤ n := Nat.findGreatest_le n
+theorem prevPrime_le (n : Nat) : prevPrime n ≤ n :=
+  @Nat.findGreatest_le Nat.Prime (Classical.decPred _) n
+
+/-- nothing between prevPrime n and n is prime -/
+theorem prevPrime_greatest {n k : Nat} (hk : prevPrime n < k) (hkn : k ≤ n) : ¬ k.Prime :=
+  @Nat.findGreatest_is_greatest k Nat.Prime (Classical.decPred _) n hk hkn
+
+theorem prevPrime_spec {n p : Nat} (h1 : p ≤ n) (h2 : p.Prime) : (prevPrime n).Prime :=
+  @Nat.findGreatest_spec p Nat.Prime (Classical.decPred _) n h1 h2
 
 theorem prevPrime_eq_zero {n : Nat} (h : ∀ q, q ≤ n → ¬ q.Prime) : prevPrime n = 0 := by
   unfold prevPrime
-  rw [Nat.findGreatest_eq_zero_iff]
+  rw [@Nat.findGreatest_eq_zero_iff n Nat.Prime (Classical.decPred _)]
   intro k _ hk; exact h k hk
 
 theorem prevPrime_eq_of {n p : Nat} (h1 : p ≤ n) (h2 : p.Prime)
     (h3 : ∀ q, p < q → q ≤ n → ¬ q.Prime) : prevPrime n = p := by
   unfold prevPrime
-  rw [Nat.findGreatest_eq_iff]
+  rw [@Nat.findGreatest_eq_iff p n Nat.Prime (Classical.decPred _)]
   refine ⟨h1, fun _ => h2, fun k hk hkn => h3 k hk hkn⟩
 
 theorem prevPrime_eq_prevPrime {x y : Nat} (hxy : x ≤ y)
@@ -63,11 +77,11 @@ theorem prevPrime_eq_prevPrime {x y : Nat} (hxy : x ≤ y)
   by_cases hp : ∃ p, p ≤ x ∧ p.Prime
   · have hx : (prevPrime x).Prime := by
       obtain ⟨p, hp1, hp2⟩ := hp
-      exact Nat.findGreatest_spec (P := Nat.Prime) hp1 hp2
+      exact prevPrime_spec hp1 hp2
     apply prevPrime_eq_of (Nat.le_trans (prevPrime_le x) hxy) hx
     intro q h1 h2 hq
     by_cases hqx : q ≤ x
-    · exact Nat.findGreatest_is_greatest (P := Nat.Prime) h1 hqx hq
+    · exact prevPrime_greatest h1 hqx hq
     · exact h q (Nat.lt_of_not_le hqx) h2 hq
   · have hx : prevPrime x = 0 := prevPrime_eq_zero (fun q hq hqp => hp ⟨q, hq, hqp⟩)
     rw [hx]
@@ -80,7 +94,7 @@ theorem prevPrime_eq_prevPrime {x y : Nat} (hxy : x ≤ y)
 theorem prevPrime_zero_or_prime (n : Nat) : prevPrime n = 0 ∨ (prevPrime n).Prime := by
   by_cases hp : ∃ p, p ≤ n ∧ p.Prime
   · obtain ⟨p, hp1, hp2⟩ := hp
-    exact Or.inr (Nat.findGreatest_spec (P := Nat.Prime) hp1 hp2)
+    exact Or.inr (prevPrime_spec hp1 hp2)
   · exact Or.inl (prevPrime_eq_zero (fun q hq hqp => hp ⟨q, hq, hqp⟩))
 
 theorem mem_primesHO {a p x : Nat} : x ∈ primesHO a p ↔ a ≤ x ∧ x < p ∧ x.Prime := by
